@@ -202,6 +202,42 @@ func runC02(r *core.Run) {
 		}
 	}
 	var samples []string
+	// ---- expected firmware digest without any SNP options (a TDX relying party, or someone
+	// checking a firmware binary against its endorsement): the endorsed digest must equal it ----
+	for k, nd := 0, 1+r.Intn(2, "digest-only-calls"); k < nd; k++ {
+		var digest []byte
+		digClass := ""
+		switch r.Intn(6, "digest-only-class") {
+		case 0, 1:
+			digest, digClass = g.Digest, "right"
+		case 2:
+			digest, digClass = otherIs.Golden.Digest, "other-image"
+		case 3:
+			digest, digClass = flipBit(g.Digest, r.Intn(384, "digest-bit")), "one-bit-neighbour"
+		case 4:
+			digest, digClass = g.Digest[:47], "truncated"
+		default:
+			digest, digClass = append(append([]byte(nil), g.Digest...), 0), "extended"
+		}
+		o := &verify.Options{ExpectedUefiSha384: digest, RootsOfTrust: roots, Now: now}
+		name := "verify.Endorsement/digest-only"
+		var err error
+		if r.Bool("digest-only-proto") {
+			name = "verify.EndorsementProto/digest-only"
+			err = verify.EndorsementProto(le, o)
+		} else {
+			err = verify.Endorsement(endorsement, o)
+		}
+		outcome := "reject"
+		if err == nil {
+			outcome = "accept"
+		}
+		r.Eval(fmt.Sprintf("%s|%s|tdx=%v|%s", name, digClass, tdxWorld, outcome), digClass != "right")
+		r.Eventf("digest-only entry=%s digest=%s -> %s", name, digClass, outcome)
+		if err == nil && !bytes.Equal(digest, g.Digest) {
+			r.Fail("accept-digest-mismatch", name, "%s accepted although the expected firmware digest (%s) differs from the endorsed one", name, digClass)
+		}
+	}
 	nCalls := 3 + r.Intn(6, "calls")
 	for i := 0; i < nCalls; i++ {
 		if !tdxWorld {
